@@ -238,20 +238,36 @@ def run(rep: Report, prog: Program, tier: str) -> None:
             else:
                 blk = blocks[0]
                 rets = [n for n in prog._own_nodes(m.node) if isinstance(n, ast.Return) and n.value is not None]
+                al = field_aliases(prog, m, sn)
+
+                def snapshot_only(expr: ast.AST) -> bool:
+                    """the expression uses only locals / constants / unguarded configuration: values computed
+                    inside the critical section and handed out afterwards are a snapshot, not a second access"""
+                    for x in ast.walk(expr):
+                        if isinstance(x, ast.Attribute) and isinstance(x.value, ast.Name) and x.value.id == sn and (x.attr in guarded or x.attr == lock):
+                            return False
+                        if isinstance(x, ast.Name) and x.id in al and al[x.id] in guarded:
+                            return False
+                        if isinstance(x, ast.Call) and isinstance(x.func, ast.Attribute) and isinstance(x.func.value, ast.Name) and x.func.value.id == sn:
+                            return False
+                    return True
+
                 out_rets = [r for r in rets if r not in list(ast.walk(blk))]
-                if out_rets:
+                if any(not snapshot_only(r.value) for r in out_rets):
                     problem = "the result is computed outside the critical section"
                 after = m.node.body[m.node.body.index(blk) + 1 :] if blk in m.node.body else None
                 if after is None:
                     problem = problem or "the critical section is nested in other control flow"
-                elif any(not isinstance(s, ast.Pass) for s in after):
+                elif any(not (isinstance(s, ast.Pass) or (isinstance(s, ast.Return) and (s.value is None or snapshot_only(s.value)))) for s in after):
                     problem = problem or "statements follow the critical section"
                 # statements before the block may only validate arguments / read the clock
                 before = m.node.body[: m.node.body.index(blk)] if blk in m.node.body else []
-                for s in before:
+                for s in before + [x for x in (after or []) if not isinstance(x, ast.Return)]:
                     for n in ast.walk(s):
                         if isinstance(n, ast.Attribute) and isinstance(n.value, ast.Name) and n.value.id == sn and n.attr in guarded:
                             problem = problem or f"guarded field `{n.attr}` read before the lock is taken"
+                        if isinstance(n, ast.Call) and isinstance(n.func, ast.Attribute) and isinstance(n.func.value, ast.Name) and n.func.value.id == sn and (n.func.attr in locking or n.func.attr in helper_need):
+                            problem = problem or f"`self.{n.func.attr}()` (a second critical section / guarded access) outside the critical section: the operation is split (check-then-act)"
             if problem:
                 rep.fail("R17.2", f"{m.qual}|{problem[:40]}", f"{m.qual}: {problem}", where=m.where(), function=m.qual)
             else:
